@@ -63,7 +63,9 @@ SPEC = Spec(
          "per type, each writing its own subset of boolean/numeric settings, endpoints and secret-bearing settings (headers / response_headers "
          "maps, tls pem fields); per instance the typed config is compared (DeepEqual) with the isolated load of its own keys on a fresh factory "
          "default and the effective configuration (confmap.Marshal of the whole otelcol.Config, as collector.go does for ConfigWatcher) leaf by "
-         "leaf, secrets must be exactly the marker; non-trivial = two or more instances of one type. "
+         "leaf, secrets must be exactly the marker; corpus documents (invalid nested values, rule combinations, 12 reference/shape/unknown-key mistakes) and generated documents "
+         "also go through the `validate` sub-command's entry point otelcol.Collector.DryRun, which must reject whatever load + xconfmap.Validate rejects, with the same error lines; "
+         "non-trivial = two or more instances of one type. "
          "watch: the same generated configurations (only nop receiver/exporter wired, the rest configured but unused) in a running "
          "otelcol.Collector with a ConfigWatcher test extension: the configuration received by NotifyConfig must equal confmap.Marshal of "
          "ConfigProvider.Get on the same document, contain every written key and no written secret. "
